@@ -13,6 +13,12 @@
         segment 1 with an explicit LN, overlaps `*` and 1M mixed
      3  integer names (the merged segment is named by unused_name()),
         sequences `*` with explicit lengths except segment 3, overlaps 2M / `*`
+     4  letters, sequences; the match-only CIGARs of 1-2 operations over {M, =}
+        of total length 1-2: 1=, 2=, 1M1=, 1=1M, 1M1M, 0M2M, 0M1=, 2M
+        (GFA2 alignments admit only M: a graph is also written as GFA2 when all
+        its overlaps do)
+     5  letters, sequences; overlaps 1X, 1M1X, 1=1X (mismatch operation: merging
+        with full trim or a clean refusal are both accepted) mixed with 1=, 2M
    Every state is printed as <<"CASE", profile, segments, links>>; the harness
    writes it as GFA1 and as GFA2 text and runs gfapy on it.                   *)
 EXTENDS LinearPaths, TLC
@@ -22,7 +28,7 @@ CONSTANTS NSeg, MaxLinks, LawLinks
 VARIABLES prof, sel
 vars == <<prof, sel>>
 
-Profiles == {1, 2, 3}
+Profiles == {1, 2, 3, 4, 5}
 LetterNames == <<"A", "B", "C", "D">>
 DigitNames  == <<"1", "2", "3", "4">>
 SeqCat == << <<"A", "A", "C", "G", "T">>, <<"C", "C", "G", "A">>, <<"G", "T", "T", "A">>, <<"T", "C", "A">> >>
@@ -30,7 +36,7 @@ SeqCat == << <<"A", "A", "C", "G", "T">>, <<"C", "C", "G", "A">>, <<"G", "T", "T
 NameOf(p, i) == IF p = 3 THEN DigitNames[i] ELSE LetterNames[i]
 \* [name, seq, len (always known: GFA2 needs it), ln = 1 when GFA1 text carries LN]
 SegRec(p, i) ==
-  CASE p = 1 -> [name |-> NameOf(p, i), seq |-> SeqCat[i], len |-> Len(SeqCat[i]), ln |-> 0]
+  CASE p \in {1, 4, 5} -> [name |-> NameOf(p, i), seq |-> SeqCat[i], len |-> Len(SeqCat[i]), ln |-> 0]
     [] p = 2 -> [name |-> NameOf(p, i), seq |-> IF i = 2 THEN <<>> ELSE SeqCat[i],
                  len |-> Len(SeqCat[i]), ln |-> IF i = 1 THEN 1 ELSE 0]
     [] p = 3 -> [name |-> NameOf(p, i), seq |-> IF i = 3 THEN SeqCat[i] ELSE <<>>,
@@ -47,11 +53,19 @@ Twins == <<[a |-> 2, b |-> 3, twin |-> 1], [a |-> 1, b |-> 2, twin |-> 1]>>
 Cat == Plain \o Twins
 OrigOf(q) == CHOOSE r \in DOMAIN Plain : Plain[r].a = Cat[q].a /\ Plain[r].b = Cat[q].b
 
+Op(n, c) == [n |-> n, c |-> c]
+KM(k) == IF k < 0 THEN <<>> ELSE <<Op(k, "M")>>
+Rich == << <<Op(1, "=")>>, <<Op(2, "=")>>, <<Op(1, "M"), Op(1, "=")>>, <<Op(1, "="), Op(1, "M")>>,
+           <<Op(1, "M"), Op(1, "M")>>, <<Op(0, "M"), Op(2, "M")>>, <<Op(0, "M"), Op(1, "=")>>, <<Op(2, "M")>> >>
+Mism == << <<Op(1, "X")>>, <<Op(1, "=")>>, <<Op(1, "M"), Op(1, "X")>>, <<Op(2, "M")>>, <<Op(1, "="), Op(1, "X")>> >>
+\* the CIGAR of the q-th catalogue entry, written from its first end to its second
 OvOf(p, q) ==
-  IF Cat[q].twin = 1 THEN 3
-  ELSE CASE p = 1 -> 1 + (q % 2)
-         [] p = 2 -> IF q % 3 = 0 THEN -1 ELSE 1
-         [] p = 3 -> IF q % 2 = 0 THEN 2 ELSE -1
+  IF Cat[q].twin = 1 THEN KM(3)
+  ELSE CASE p = 1 -> KM(1 + (q % 2))
+         [] p = 2 -> IF q % 3 = 0 THEN KM(-1) ELSE KM(1)
+         [] p = 3 -> IF q % 2 = 0 THEN KM(2) ELSE KM(-1)
+         [] p = 4 -> Rich[1 + (q % 8)]
+         [] p = 5 -> Mism[1 + (q % 5)]
 
 LinkRec(p, q) == [e1 |-> EndAt(p, Cat[q].a), e2 |-> EndAt(p, Cat[q].b), ov |-> OvOf(p, q)]
 
@@ -60,7 +74,7 @@ GraphOf(p, s) ==
   [segs |-> {LET r == SegRec(p, i) IN
              [name |-> r.name, seq |-> r.seq,
               len |-> IF r.ln = 1 \/ r.seq # <<>> THEN r.len ELSE -1] : i \in 1..NSeg},
-   links |-> [k \in DOMAIN s |-> LET r == LinkRec(p, s[k]) IN [ends |-> {r.e1, r.e2}, ov |-> r.ov]]]
+   links |-> [k \in DOMAIN s |-> LET r == LinkRec(p, s[k]) IN [ends |-> {r.e1, r.e2}, ov |-> OvKey(r.ov)]]]
 \* ... and as GFA2 text presents it (slen is mandatory)
 GraphOf2(p, s) ==
   [segs |-> {LET r == SegRec(p, i) IN [name |-> r.name, seq |-> r.seq, len |-> r.len] : i \in 1..NSeg},
@@ -78,7 +92,8 @@ Spec == Init /\ [][Next]_vars
 Emit == PrintT(<<"CASE", prof,
                  [i \in 1..NSeg |-> LET r == SegRec(prof, i) IN <<r.name, r.seq, r.len, r.ln>>],
                  [k \in DOMAIN sel |-> LET r == LinkRec(prof, sel[k]) IN
-                                       <<r.e1[1], r.e1[2], r.e2[1], r.e2[2], r.ov>>]>>)
+                                       <<r.e1[1], r.e1[2], r.e2[1], r.e2[2],
+                                         [j \in DOMAIN r.ov |-> <<r.ov[j].n, r.ov[j].c>>]>>]>>)
 
 -----------------------------------------------------------------------------
 Laws(G) == /\ ChainsWellFormed(G)
@@ -88,6 +103,7 @@ Laws(G) == /\ ChainsWellFormed(G)
            /\ ComponentsPreserved(G)
            /\ FlipLaw(G)
            /\ LinkCount(G)
+           /\ OvLenWellDefined(G)
 \* (the laws are evaluated on the states with at most LawLinks dovetails)
 InvLaws  == Len(sel) <= LawLinks => Laws(GraphOf(prof, sel))
 InvLaws2 == Len(sel) <= LawLinks => Laws(GraphOf2(prof, sel))
